@@ -537,6 +537,71 @@ impl Space for Independence {
     }
 }
 
+/// Independence under combinations that name a real platform: machine x OS ABI x file type.
+pub struct Platforms {
+    pub sk: Vec<crate::skeleton::Skeleton>,
+}
+const OSABIS: [u64; 20] = [0, 1, 2, 3, 6, 7, 8, 9, 10, 11, 12, 13, 14, 15, 16, 17, 18, 64, 97, 255];
+impl Space for Platforms {
+    fn name(&self) -> String {
+        "independence under platform identities: e_machine in the 14 quirk machines x EI_OSABI in every registered value {0,1,2,3,6..18,64,97,255} x e_type in {REL,EXEC,DYN,CORE} set together on the tiny-full skeletons (4 encodings): all API results except the file header itself equal the baseline's".into()
+    }
+    fn size(&self) -> u64 {
+        (crate::skeleton::QUIRK_MACHINES.len() * self.sk.len()) as u64
+    }
+    fn describe(&self, idx: u64) -> Value {
+        let nm = crate::skeleton::QUIRK_MACHINES.len();
+        json!({"skeleton": self.sk[idx as usize / nm].name, "e_machine": crate::skeleton::QUIRK_MACHINES[idx as usize % nm].1, "osabi_x_type": "20 x 4 combinations"})
+    }
+    fn run(&self, idx: u64, out: &mut Outcome) {
+        use crate::driver::*;
+        let nm = crate::skeleton::QUIRK_MACHINES.len();
+        let sk = &self.sk[idx as usize / nm];
+        let (machine, mname) = crate::skeleton::QUIRK_MACHINES[idx as usize % nm];
+        let site = |r: &str| sk.sites.iter().find(|s| s.role == r).expect("site").clone();
+        let (sm, so, st) = (site("ehdr.e_machine"), site("ehdr.ei_osabi"), site("ehdr.e_type"));
+        let run = |bytes: &[u8]| -> Option<Vec<Rec>> {
+            let mut s = RecordSink::new();
+            match subject(|| observe::<AnyEndian, _>(bytes, &mut s, &Opts { crafted: false })) {
+                Ok(true) => Some(s.recs.into_iter().filter(|r| r.key.q != Q_OPEN && !(r.key.q == Q_SEGDATA && r.key.a == 0)).collect()),
+                _ => None,
+            }
+        };
+        let base = match run(&sk.bytes) {
+            Some(b) => b,
+            None => {
+                out.violate("independence:baseline does not open", sk.name.clone());
+                return;
+            }
+        };
+        let mut dig = Fnv::new();
+        for osabi in OSABIS {
+            for et in [1u64, 2, 3, 4] {
+                let mut bytes = sk.bytes.clone();
+                put(&mut bytes, sm.off, sm.width, sk.enc.order, machine as u64);
+                put(&mut bytes, so.off, so.width, sk.enc.order, osabi);
+                put(&mut bytes, st.off, st.width, sk.enc.order, et);
+                out.transitions += base.len() as u64;
+                match run(&bytes) {
+                    None => {
+                        out.violate("independence:platform identity makes the file unreadable", format!("{mname} / EI_OSABI {osabi} / e_type {et} on {}", sk.name));
+                        return;
+                    }
+                    Some(r) => {
+                        if r != base {
+                            let first = r.iter().zip(base.iter()).find(|(x, y)| x != y).map(|(x, _)| qname(x.key.q)).unwrap_or("record count");
+                            out.violate("independence:results depend on the platform identity", format!("{mname} / EI_OSABI {osabi} / e_type {et} on {}: first differing call {}", sk.name, first));
+                            return;
+                        }
+                        dig.u64(osabi * 8 + et);
+                    }
+                }
+            }
+        }
+        out.nontrivial(dig.get() ^ idx);
+    }
+}
+
 /// The header a GnuHashTable exposes (`.hdr`) carries the on-disk words, whatever their values.
 struct HashHeaders;
 const HH_SHIFTS: [u32; 16] = [0, 1, 5, 6, 26, 31, 32, 33, 40, 63, 64, 255, 256, 0x8000_0000, 0xffff_ffe0, u32::MAX];
@@ -600,6 +665,7 @@ pub fn build(tier: Tier) -> CheckDef {
             // note headers: sizes and padding of consecutive records through ElfBytes
             Box::new(super::c14::ThroughFile),
             Box::new(HashHeaders),
+            Box::new(Platforms { sk: crate::skeleton::tiny_skeletons().into_iter().filter(|s| s.name.ends_with("linker-order")).collect() }),
         ],
         abort_is_violation: false,
         hang_is_violation: false,
